@@ -33,3 +33,51 @@ Proof. reflexivity. Qed.
 
 Theorem gen_key_base_iv k k_nil : key_Key_BaseIV k k_nil = Ok (base_iv k).
 Proof. reflexivity. Qed.
+
+(* ---------------------------------------------------------------- Key.Ops *)
+Definition ops_body : Z -> gval -> list Z -> res (ctl (list Z) (option (list Z))) :=
+  fun i v ops => let t1_ := to_int v in let op := val_or 0 t1_ in let err_ok := is_ok t1_ in
+                 if negb err_ok then Ok (CRet None) else do ops0 <- go_set ops i op; Ok (CNext ops0).
+
+Lemma ops_loop : forall (l : list gval) (done rest : list Z), length rest = length l ->
+  go_range_from (Z.of_nat (length done)) l (done ++ rest)%list ops_body
+  = Ok (match all_to_int l with Some zs => inl (done ++ zs)%list | None => inr None end).
+Proof.
+  induction l as [|v l IH]; intros done rest Hl.
+  - destruct rest; [|discriminate]. reflexivity.
+  - destruct rest as [|z rest]; [discriminate|]. cbn [go_range_from all_to_int]. unfold ops_body at 1.
+    destruct (to_int v) as [n| |]; cbn [val_or is_ok negb]; [|reflexivity|reflexivity].
+    assert (S : go_set (done ++ z :: rest) (Z.of_nat (length done)) n = Ok ((done ++ [n]) ++ rest)%list).
+    { unfold go_set, go_len. rewrite app_length. cbn [length].
+      replace (Z.of_nat (length done) <? 0) with false by (symmetry; apply Z.ltb_ge; lia).
+      replace (Z.of_nat (length done + S (length rest)) <=? Z.of_nat (length done)) with false by (symmetry; apply Z.leb_gt; lia).
+      cbn [orb]. rewrite Nat2Z.id, firstn_app, Nat.sub_diag, firstn_all. cbn [firstn]. rewrite app_nil_r.
+      replace (skipn (S (length done)) (done ++ z :: rest)) with rest.
+      - now rewrite <- app_assoc.
+      - replace (S (length done)) with (length (done ++ [z])) by (rewrite app_length; cbn [length]; lia).
+        replace (done ++ z :: rest)%list with ((done ++ [z]) ++ rest)%list by (now rewrite <- app_assoc).
+        now rewrite skipn_app, skipn_all, Nat.sub_diag. }
+    rewrite S. cbn [bind].
+    replace (Z.of_nat (length done) + 1) with (Z.of_nat (length (done ++ [n]))) by (rewrite app_length; cbn [length]; lia).
+    rewrite (IH (done ++ [n])%list rest) by (cbn [length] in Hl; lia).
+    destruct (all_to_int l) as [zs|]; [|reflexivity]. now rewrite <- app_assoc.
+Qed.
+
+Theorem gen_key_ops k k_nil : key_Key_Ops k k_nil = Ok (key_ops k).
+Proof.
+  unfold key_Key_Ops, key_ops. destruct (lookup k (ilabel 4)) as [v|]; [|reflexivity].
+  destruct v; try reflexivity.
+  - (* []any: every member through ToInt, nil at the first failure *)
+    unfold go_make_ints, go_len. replace (Z.of_nat (length l) <? 0) with false by (symmetry; apply Z.ltb_ge; lia).
+    cbn [bind]. rewrite Nat2Z.id. unfold go_range.
+    pose proof (ops_loop l [] (repeat 0 (length l)) (repeat_length _ _)) as H. cbn [length app] in H. change (Z.of_nat 0) with 0 in H.
+    match goal with |- context [go_range_from ?a ?b ?c ?f] =>
+      replace (go_range_from a b c f) with (@Ok (list Z + option (list Z)) (match all_to_int l with Some zs => inl zs | None => inr None end)) by (symmetry; exact H) end.
+    destruct (all_to_int l); reflexivity.
+  - (* []int: a copy *)
+    unfold go_make_ints, go_len. replace (Z.of_nat (length l) <? 0) with false by (symmetry; apply Z.ltb_ge; lia).
+    cbn [bind]. rewrite Nat2Z.id. unfold go_copy_at, go_len. rewrite repeat_length.
+    replace (0 <? 0) with false by reflexivity. replace (Z.of_nat (length l) <? 0) with false by (symmetry; apply Z.ltb_ge; lia).
+    cbn [orb bind Z.to_nat firstn app]. rewrite Nat.sub_0_r, Nat.min_id, firstn_all.
+    rewrite skipn_all2 by (rewrite repeat_length; lia). now rewrite app_nil_r.
+Qed.
